@@ -106,10 +106,16 @@ def pack_bytes(with_c4):
     return f.getvalue()
 
 
+# names check-ref-format refuses, and one that collides as file/directory with r1.  Not in the list: names with a space (not
+# representable in a command line), and HEAD / names outside refs/ (the statement does not forbid a server to accept them).
+BAD_NAMES = [b"refs/heads/bad..name", b"refs/heads/x.lock", b"refs/heads/.hidden", b"refs/heads/end.", b"refs/heads/at@{x",
+             b"refs/heads/r1/sub"]
+
+
 # --------------------------------------------------------------------------- reference model
 
 
-def model(state, store, cmds, atomic, delete_refs=True, pack_has_c4=False, pack_ok=True):
+def model(state, store, cmds, atomic, delete_refs=True, pack_has_c4=False, pack_ok=True, df_conflicts=True):
     """Returns (reports {ref: 'ok'|'ng'}, final_state).  30-line receive-pack semantics."""
     o = objs()
     have = set(store)
@@ -118,9 +124,15 @@ def model(state, store, cmds, atomic, delete_refs=True, pack_has_c4=False, pack_
     st = dict(state)
 
     def applicable(cur_state, old, new, ref):
+        from engines.refmodels import refname
+
+        if not refname.valid(ref):
+            return False  # "funny refname"
         cur = cur_state.get(ref, ZERO)
         if cur != old:
             return False
+        if df_conflicts and new != ZERO and any(k != ref and (k.startswith(ref + b"/") or ref.startswith(k + b"/")) for k in cur_state):
+            return False  # would have to be a file and a directory at once (files backend only)
         if new == ZERO:
             return delete_refs
         return new in have
@@ -239,7 +251,7 @@ def case_push(acc, kind, state, packed, cmds, atomic, sideband, delete_refs, via
         store = {o[k].id for k in ("b", "t", "c1", "c2", "tag")}
         needs_pack = any(new != ZERO for _, new, _ in cmds)
         with_c4 = any(new == o["c4"].id for _, new, _ in cmds)
-        want_rep, want_state = model(state, store, cmds, atomic, delete_refs, with_c4)
+        want_rep, want_state = model(state, store, cmds, atomic, delete_refs, with_c4, df_conflicts=(kind == "disk"))
         acc.count("pushes")
         rpl = rp(case_push, kind, state, packed, [list(c) for c in cmds], atomic, sideband, delete_refs, via)
         desc = "%s/%s%s state=%r cmds=%r atomic=%s" % (
@@ -763,6 +775,16 @@ def run(ctx):
                 items.append(("mem", state, False, cmds, atomic, False, True, "handler"))
                 items.append(("disk", state, True, cmds, atomic, True, True, "handler"))
                 items.append(("disk", state, False, cmds, atomic, False, False, "handler"))
+    # names the server must refuse (git: "funny refname") or cannot store (file/directory conflict with an existing ref),
+    # alone and next to a good command, before and after it
+    c1_, c2_ = o["c1"].id, o["c2"].id
+    for bad in BAD_NAMES:
+        for state in ({R1: c1_}, {R1: c1_, R2: c2_}):
+            for cmds in ([(ZERO, c1_, bad)], [(c1_, c2_, R1), (ZERO, c1_, bad)], [(ZERO, c1_, bad), (c1_, c2_, R1)], [(ZERO, c2_, bad), (c1_, ZERO, R1)]):
+                for atomic in (False, True):
+                    items.append(("disk", state, False, cmds, atomic, False, True, "handler"))
+                    items.append(("mem", state, False, cmds, atomic, False, True, "handler"))
+                    items.append(("disk", state, True, cmds, atomic, False, True, "handler"))
     # in-process local push path: command lists whose old values are the ones the client sees
     for state in server_states():
         for cmds in lists:
